@@ -20,6 +20,8 @@ func main() {
 		os.Exit(vstore.Main(os.Args[2:]))
 	case "framer":
 		os.Exit(vcodec.FramerMain(os.Args[2:]))
+	case "values":
+		os.Exit(vcodec.ValuesMain(os.Args[2:]))
 	case "schedule":
 		os.Exit(vcodec.ScheduleMain(os.Args[2:]))
 	case "session":
